@@ -36,6 +36,9 @@ type c01Sc struct {
 	Ops       []c01Op    `json:"ops"`
 	// RegOnly: registered templates exist in the engine only (no loader has a copy to fall back on)
 	RegOnly bool `json:"registered_only,omitempty"`
+	// AutoReload: the engines' loader reports modification times and auto-reload is on, so a template that came from the
+	// loader follows later edits of the loader's copy (valid or not); a registered template does not
+	AutoReload bool `json:"auto_reload,omitempty"`
 }
 
 type propC01 struct{}
@@ -72,6 +75,7 @@ func (propC01) Gen(seed uint64, ex map[string]bool) interface{} {
 	sc.ClockStep = pick(r, []int64{0, 1e6, 1e9, 3600e9})
 	sc.Engines = r.Range(1, 3)
 	sc.RegOnly = r.P(40)
+	sc.AutoReload = r.P(25)
 	np := r.Range(1, 3)
 	maxOps := 40
 	if ex["tier:thorough"] {
@@ -89,7 +93,11 @@ func (propC01) Gen(seed uint64, ex map[string]bool) interface{} {
 		e, p := r.N(sc.Engines), r.N(np)
 		switch c := r.N(28); {
 		case c < 4 || (!reg[[2]int{e, p}] && r.P(90)):
-			sc.Ops = append(sc.Ops, c01Op{K: "reg", E: e, P: p})
+			k := "reg"
+			if sc.AutoReload && r.P(60) {
+				k = "lonly" // auto-reload histories: most programs come from the loader, so that later edits matter
+			}
+			sc.Ops = append(sc.Ops, c01Op{K: k, E: e, P: p})
 			reg[[2]int{e, p}] = true
 		case c < 12:
 			op := c01Op{K: pick(r, []string{"render", "render", "render", "renderto"}), E: e, P: p, CV: pick(r, []int{0, 0, 1, 2, 3})}
@@ -131,6 +139,14 @@ func (propC01) Gen(seed uint64, ex map[string]bool) interface{} {
 		case c < 24:
 			pr := sc.Progs[p]
 			sc.Ops = append(sc.Ops, c01Op{K: "hold", E: e, P: p, Name: pr.Templates[r.N(len(pr.Templates))].Name})
+		case (c == 26 || c == 27) && sc.AutoReload:
+			pr := sc.Progs[p]
+			t := pr.Templates[r.N(len(pr.Templates))]
+			src := t.Src() + fmt.Sprintf("<!-- edit %d -->", i)
+			if r.P(35) {
+				src = pick(r, []string{"{% if %}", "{{ 1 + }}", t.Src() + "{% endfor %}"})
+			}
+			sc.Ops = append(sc.Ops, c01Op{K: "ledit", E: e, P: p, Name: t.Name, Src: src})
 		case c < 26 && c >= 25:
 			// a busy engine: many other names registered or loaded meanwhile (bounded tables, eviction)
 			sc.Ops = append(sc.Ops, c01Op{K: "flood", E: e, Mode: pick(r, []int{40, 130, 130, 260, 520})})
@@ -146,7 +162,7 @@ func (propC01) Gen(seed uint64, ex map[string]bool) interface{} {
 
 type c01Engine struct {
 	e      *twig.Engine
-	loader *twig.ArrayLoader
+	loader c01Loader
 	cur    map[string]string // model: last successfully registered source per name
 	debug  bool
 	hub    *spyHub
@@ -162,10 +178,46 @@ type c01Held struct {
 	dump string
 }
 
-func newC01Engine() *c01Engine {
+// c01Loader is what the history engines load from: an ArrayLoader, or (auto-reload histories) an in-memory loader
+// whose every SetTemplate carries a newer modification time.
+type c01Loader interface {
+	twig.Loader
+	SetTemplate(name, src string)
+}
+
+type c01TSLoader struct {
+	src  map[string]string
+	mt   map[string]int64
+	tick int64
+}
+
+func (l *c01TSLoader) Load(name string) (string, error) {
+	if s, ok := l.src[name]; ok {
+		return s, nil
+	}
+	return "", fmt.Errorf("%w: %s", twig.ErrTemplateNotFound, name)
+}
+func (l *c01TSLoader) Exists(name string) bool { _, ok := l.src[name]; return ok }
+func (l *c01TSLoader) SetTemplate(name, src string) {
+	l.tick += 10
+	l.src[name], l.mt[name] = src, 1_800_000_000+l.tick
+}
+func (l *c01TSLoader) GetModifiedTime(name string) (int64, error) {
+	if t, ok := l.mt[name]; ok {
+		return t, nil
+	}
+	return 0, fmt.Errorf("%w: %s", twig.ErrTemplateNotFound, name)
+}
+
+func newC01Engine(autoReload bool) *c01Engine {
 	ce := &c01Engine{cur: map[string]string{}, base: map[*twig.Template]string{}, hub: &spyHub{per: []*Spies{newSpies()}}}
 	ce.e = twig.New()
-	ce.loader = twig.NewArrayLoader(map[string]string{})
+	if autoReload {
+		ce.loader = &c01TSLoader{src: map[string]string{}, mt: map[string]int64{}}
+		ce.e.SetAutoReload(true)
+	} else {
+		ce.loader = twig.NewArrayLoader(map[string]string{})
+	}
 	ce.e.RegisterLoader(ce.loader)
 	installSpies(ce.e, ce.hub)
 	return ce
@@ -219,7 +271,7 @@ func (propC01) Run(scI interface{}) (o *Outcome) {
 	start := w.NowNS()
 	engs := make([]*c01Engine, sc.Engines)
 	for i := range engs {
-		engs[i] = newC01Engine()
+		engs[i] = newC01Engine(sc.AutoReload)
 	}
 	fail := func(or, sig, detail string) *Outcome {
 		o.Viol = &Violation{Oracle: or, Sig: sig, Detail: detail}
@@ -275,17 +327,41 @@ func (propC01) Run(scI interface{}) (o *Outcome) {
 					// an entry cached earlier under this name stays authoritative (auto-reload is off): only
 					// names the engine has not cached yet are affected
 					if old, ok := twig.VerifCached(ce.e)[t.Name]; ok {
-						_, osrc, _, _ := twig.VerifTemplateMeta(old)
-						ce.cur[t.Name] = osrc
-						ce.loader.SetTemplate(t.Name, osrc)
+						_, osrc, _, oldLoader := twig.VerifTemplateMeta(old)
+						if !(sc.AutoReload && oldLoader != nil) { // (under auto-reload an entry that came from the loader follows it)
+							ce.cur[t.Name] = osrc
+							ce.loader.SetTemplate(t.Name, osrc)
+						}
 					}
 				}
 			}
 		case "lmiss":
-			if _, cached := twig.VerifCached(ce.e)[op.Name]; !cached {
+			if old, cached := twig.VerifCached(ce.e)[op.Name]; !cached {
+				ce.cur[op.Name] = op.Src
+				ce.loader.SetTemplate(op.Name, op.Src)
+			} else if _, _, _, oldLoader := twig.VerifTemplateMeta(old); sc.AutoReload && oldLoader != nil {
 				ce.cur[op.Name] = op.Src
 				ce.loader.SetTemplate(op.Name, op.Src)
 			}
+		case "ledit":
+			// somebody edits the loader's copy of a template (auto-reload histories only); the new version may not parse
+			if !sc.AutoReload {
+				break
+			}
+			old, cached := twig.VerifCached(ce.e)[op.Name]
+			registered := false
+			if cached {
+				_, _, _, oldLoader := twig.VerifTemplateMeta(old)
+				registered = oldLoader == nil
+			}
+			if _, known := ce.cur[op.Name]; !known && !cached {
+				break
+			}
+			ce.loader.SetTemplate(op.Name, op.Src)
+			if !registered {
+				ce.cur[op.Name] = op.Src
+			}
+			o.Probes["loader_edits"]++
 		case "alias":
 			if t, err := ce.e.Load(op.Name); err == nil {
 				dst := engs[op.Mode%len(engs)]
@@ -334,7 +410,13 @@ func (propC01) Run(scI interface{}) (o *Outcome) {
 				return fail("O2-cached-tree", "a loaded template's tree was altered after it was handed out",
 					fmt.Sprintf("op #%d: template held since an earlier Load\n was: %s\n now: %s", oi, tail(h.dump, 500), tail(d, 500)))
 			}
-			if got.Key() != want.Key() && !strings.Contains(h.src, "./") {
+			relative := strings.Contains(h.src, "./")
+			for _, other := range h.cur {
+				// the replica parses the held source as a NAMELESS template; relative names anywhere below it would
+				// resolve against a different starting point than in the named original
+				relative = relative || strings.Contains(other, "./")
+			}
+			if got.Key() != want.Key() && !relative {
 				return fail("O1-pristine-replica", "render of a template obtained from Load differs from its source on a fresh engine",
 					fmt.Sprintf("op #%d engine %d\n held template source %q\n history engine: %s\n fresh engine:   %s", oi, op.E, tail(h.src, 300), got, want))
 			}
